@@ -31,6 +31,11 @@ theorem recMw_pass (b a : List ε) : PassMw (recMw b a : Mw ε σ α) b a := by
 theorem recSide_pass (nil : α) (b : List ε) : PassSide nil (recSide nil b : Flt ε σ α) b := by
   intro call s; rfl
 
+theorem flatten_singletons {β γ : Type} (f : β → γ) : ∀ (l : List β),
+    (l.map fun x => [f x]).flatten = l.map f
+  | [] => rfl
+  | x :: l => by simp [flatten_singletons f l]
+
 /-! ## the middleware chain -/
 
 /-- the chain built by the right fold over pass-through middlewares is itself a pass-through
